@@ -70,7 +70,7 @@ def isa_cell(cell):
     return {'v': out[:4], 'n': 6, 'nt': hft if hft != 0 else None, 'extra': {'max_isa_rel_err': worst}}
 
 
-STATIONS = {'std': None, 'hot': (28.0, 95.0, 60), 'cold': (31.0, -20.0, 10), 'frigid': (29.0, -76.0, 0), 'torrid': (29.5, 140.0, 100)}   # inHg, deg F (-60 C / +60 C: the corners of the domain), % humidity
+STATIONS = {'std': None, 'hot': (28.0, 95.0, 60), 'cold': (31.0, -20.0, 10), 'frigid': (29.0, -76.0, 0), 'torrid': (29.5, 140.0, 100), 'powder': (29.92, 41.0, 0, 100.0)}   # inHg, deg F (-60 C / +60 C: the corners of the domain), % humidity
 
 
 def _station(kind, a0):
@@ -78,7 +78,9 @@ def _station(kind, a0):
     U = pb.Unit
     if kind == 'std':
         return pb.Atmo.icao(U.Foot(a0))
-    p, t, h = STATIONS[kind]
+    p, t, h = STATIONS[kind][:3]
+    if len(STATIONS[kind]) > 3:      # powder temperature given (none of the atmosphere's business)
+        return pb.Atmo(U.Foot(a0), U.InHg(p), U.Fahrenheit(t), h, U.Fahrenheit(STATIONS[kind][3]))
     return pb.Atmo(U.Foot(a0), U.InHg(p), U.Fahrenheit(t), h)
 
 
@@ -94,6 +96,9 @@ def station(cell):
     if off == 0:
         if d != st.density_ratio or abs(m - m_st) > 1e-12 * m_st:
             out.append({'msg': f'{kind} station at {a0} ft queried at its own altitude gives ({d!r},{m!r}), own values ({st.density_ratio!r},{m_st!r})', 'key': None})
+    a_own = 20.046796 * math.sqrt(st.temperature >> U.Kelvin) / FT        # speed of sound of air at the station's temperature (fps)
+    if abs(m_st - a_own) / a_own > 1e-4:
+        out.append({'msg': f'{kind} station at {a0} ft, air {st.temperature >> U.Celsius:.2f} C: its speed of sound is {m_st!r} fps, air at that temperature has {a_own!r}', 'key': None})
     lim_d, lim_m = lapse30(st.temperature >> U.Kelvin)
     if abs(off) <= 30.001:
         # inside / just across the shortcut: no more than the station's own 30-ft lapse away from its own values
@@ -297,7 +302,7 @@ def plan(tier):
     alts = list(range(-1400, 36001, step))
     st = []
     stations = [-1000, 0, 5000, 15000, 30000]
-    for kind in ('std', 'hot', 'cold', 'frigid', 'torrid'):
+    for kind in ('std', 'hot', 'cold', 'frigid', 'torrid', 'powder'):
         for a0 in stations:
             qs = set(float(a0 + o) for o in OFFS)
             if kind == 'std' or tier == 'thorough':
